@@ -240,6 +240,19 @@ def run(ctx):
             if not ok:
                 ctx.violation({'kind': 'output-shape-depends-on-the-integer-type-of-shape', 'shape_dtype': np.dtype(sdt).name},
                               {'shape': list(shp), 'oversample': os_s, 'error': err}, case=None)
+    # pixel scales held in single precision are the same pixel scales: the sampling alpha is formed from them in double precision (both
+    # scales as float32 arrays, as read from a single precision header; compared with the float64 twin of the very same numbers)
+    for (dxv, duv) in ((3e-3, 5e-6), (1e-3, 1.3e-5)):
+        dx32, du32 = np.array([dxv, dxv], dtype=np.float32), np.array([duv, duv], dtype=np.float32)
+        ampf = np.ones((96, 96))
+        res = []
+        for (dx_, du_) in ((dx32, du32), (dx32.astype(float), du32.astype(float))):
+            wv_ = lentil.Wavefront(6e-7) * lentil.Pupil(amplitude=ampf, pixelscale=dx_, focal_length=4.0)
+            res.append(lentil.propagate_dft(wv_, pixelscale=du_, shape=48, oversample=2).field)
+        ctx.case(('float32-pixel-scales', dxv, duv))
+        dev = float(np.abs(res[0] - res[1]).max() / np.abs(res[1]).max())
+        if dev > 1e-12:
+            ctx.violation({'kind': 'field-depends-on-the-float-type-of-the-pixel-scales'}, {'dx': dxv, 'du': duv, 'max_difference_over_peak': dev}, case=None)
     ox.binding_selftest(ctx, lentil, cases[0], spec[cases[0]['id']])
     ctx.traces += len(cases)
     ctx.sample({'case': cases[0], 'spec_observations': spec[0]['obs']}, maxn=1)
